@@ -17,7 +17,12 @@ import TR.Model.Limit
   block and drops the guard; dropping the future (polled or not) drops the guard and the inner
   future. Neither gives feedback to the algorithm (`record_dropped` is never called).
 
-Callers: *checked* (a clone passed `poll_ready`, `call` not yet made) → *running* → gone.
+Callers: *checked* (a clone passed `poll_ready`, `call` not yet made) → *running* → gone, or
+→ *held* for a caller that keeps the finished call future alive (`arrive … keep=1`: a pinned
+future polled by reference, a `select!` over `&mut fut`, a stored future replaced only on the
+next request) until it lets go of it (`release c`). The guard lives in the async block and is
+dropped when the inner await returns, so the slot is free **at completion**: a held future is
+not running, is not counted, and dropping it later changes nothing.
 One `arrive` of an unchecked caller is clone + `poll_ready` + `call`; one `poll` is one poll of
 the call future. `checks` is ghost: every readiness check with the number of calls really
 running at that step, the limit at that step and the answer.
@@ -37,7 +42,9 @@ structure State where
   alg      : Cells                    -- the algorithm's atomics
   inFlight : Nat := 0                 -- the service's `in_flight` counter
   checked  : List Nat := []           -- passed `poll_ready`, `call` not yet made
-  running  : List Nat := []           -- call future alive, inner call started
+  running  : List Nat := []           -- call future alive, inner call started and not finished
+  keeps    : List Nat := []           -- callers that hold on to their call future after it has resolved (`keep=1`)
+  held     : List Nat := []           -- call future resolved (ok / err), the object still alive: NOT in flight
   script   : List (Nat × Step) := []  -- callers that have arrived (admitted or refused)
   startAt  : List (Nat × Nat) := []   -- instant of `call()`
   doneAt   : List (Nat × Nat) := []   -- instant the inner call is ready
@@ -48,11 +55,12 @@ structure State where
 deriving Repr
 
 inductive Op
-  | arrive (c : Nat) (sc : Step)
+  | arrive (c : Nat) (sc : Step) (keep : Bool)
   | poll (c : Nat)
   | drop (c : Nat)
   | adv (ms : Nat)
   | check (c : Nat)
+  | letGo (c : Nat)               -- `release c`: the caller drops a call future that has already resolved
   | warm (prog : List FOp)
   | probeInFlight
   | probeLimit
@@ -92,6 +100,18 @@ def arriveChecked (s : State) (c : Nat) (sc : Step) : State :=
 def release (s : State) (c : Nat) : State :=
   { s with inFlight := s.inFlight - 1, running := s.running.erase c }
 
+/-- the caller said `keep=1`: it will hold on to the call future after it has resolved -/
+def noteKeep (s : State) (c : Nat) (keep : Bool) : State :=
+  if keep then { s with keeps := c :: s.keeps } else s
+
+/-- the call future has resolved with a value; a caller that keeps it now holds a finished future
+(the guard is already gone: this touches neither the counter nor `running`) -/
+def hold (s : State) (c : Nat) : State :=
+  if c ∈ s.keeps then { s with held := s.held ++ [c] } else s
+
+/-- `release c`: a finished call future is finally dropped — nothing is left in it to release -/
+def letGoOp (s : State) (c : Nat) : State := { s with held := s.held.erase c }
+
 def feed (cfg : Cfg) (s : State) (op : FOp) : State := { s with alg := Limit.seqOp cfg s.alg op }
 
 /-- latency measured by the service, in ns -/
@@ -99,8 +119,9 @@ def latencyNs (s : State) (c : Nat) : Nat := (s.now - (lookup s.startAt c).getD 
 
 def complete (cfg : Cfg) (s : State) (c k : Nat) (o : Out) : State :=
   match o with
-  | .ok => emit (feed cfg (release s c) (.succ (latencyNs s c))) [.innerDone c k .ok, .result c (.ok k)]
-  | .err kd => emit (feed cfg (release s c) .fail) [.innerDone c k (.err kd), .result c (.inner kd k)]
+  | .ok => emit (feed cfg (hold (release s c) c) (.succ (latencyNs s c))) [.innerDone c k .ok, .result c (.ok k)]
+  | .err kd => emit (feed cfg (hold (release s c) c) .fail) [.innerDone c k (.err kd), .result c (.inner kd k)]
+  -- a panic unwinds through the caller's poll: the future is dropped with it, kept or not
   | .panic => emit (release s c) [.innerDone c k .panic, .result c .panic]
   | .never => s
 
@@ -128,13 +149,14 @@ def probeReady (s : State) : State :=
 def stepS (cfg : Cfg) (s : State) (op : Op) : State :=
   match op with
   | .adv ms => { s with now := s.now + ms }
-  | .arrive c sc =>
+  | .arrive c sc keep =>
       if known s c then s
-      else if c ∈ s.checked then arriveChecked s c sc
-      else arriveFresh s c sc
+      else if c ∈ s.checked then arriveChecked (noteKeep s c keep) c sc
+      else arriveFresh (noteKeep s c keep) c sc
   | .poll c => if c ∈ s.running then pollRunning cfg s c else s
   | .drop c => if c ∈ s.running then dropRunning s c else s
   | .check c => checkOp s c
+  | .letGo c => letGoOp s c
   | .warm prog => warmOp cfg s prog
   | .probeInFlight => emit s [.probe s!"in_flight = {s.inFlight}"]
   | .probeLimit => emit s [.probe s!"limit = {s.alg.limit}"]
@@ -149,7 +171,8 @@ def parseOp (ws : List String) : Option Op :=
   match ws with
   | "arrive" :: c :: rest =>
       let plan := planOf (parseKv rest)
-      some (.arrive (c.toNat?.getD 0) (plan.headD { lat := 0, out := .ok }))
+      some (.arrive (c.toNat?.getD 0) (plan.headD { lat := 0, out := .ok }) ((parseKv rest).nat "keep" 0 == 1))
+  | "release" :: c :: _ => some (.letGo (c.toNat?.getD 0))
   | "poll" :: c :: _ => some (.poll (c.toNat?.getD 0))
   | "drop" :: c :: _ => some (.drop (c.toNat?.getD 0))
   | "adv" :: ms :: _ => some (.adv (ms.toNat?.getD 0))
